@@ -66,11 +66,12 @@ CLAIMS = {
              'collection loops; and the stamping of a reference with its DECLARED class at declaration / parameter binding - observed defect: `A a = new Sub(); k.g(a)` runs g(Sub) although the analyser resolved g(A) (native oracle, label site.binding.*).',
         ref='DESIGN.md §4 C08'),
     'C09': dict(
-        text='Kernel only, with ghost state: the scope-stack walk of RuntimeEvaluator::lookup and ::assign is proved to find / write the innermost binding of the name and to leave every other entry untouched (ghost scope and entry index, loop '
+        text='Kernel only, with ghost state: (a) the scope-stack walk of RuntimeEvaluator::lookup and ::assign is proved to find / write the innermost binding of the name and to leave every other entry untouched (ghost scope and entry index, loop '
              'invariants); the property clause itself - the binding used never lies below the frame base of the current call (ghost g_fb) - is an obligation that FAILS on this code base and is reported as two KNOWN-FINDINGs (dynamic scoping of lookup / of assign) '
-             'with a replay on the real interpreter; any other failing obligation is still a VIOLATION.',
-        note=TB + 'The frame base is a free ghost parameter (its definition - call / callMethod / runConstructorChain push exactly one scope - is not verified). NOT covered: the part of lookup/assign after the walk (fields, statics, class names), '
-             'the analyser\'s resolution order, and the renaming corollary (a written argument over these contracts).',
+             'with a replay on the real interpreter; any other failing obligation is still a VIOLATION. (b) frame set-up: the parameter-binding loops of call, callMethod and runConstructorChain are proved to bind every parameter in the NEW top scope (observed at an arbitrary name), '
+             'to bind nothing but parameter names, and to leave every entry of every caller scope untouched (loop invariants; beginScope is checked to be the one-line push it is modelled as).',
+        note=TB + 'The frame base is a ghost parameter equal to the index of the scope pushed by beginScope(). NOT covered: the part of lookup/assign after the walk (fields, statics, class names), that the callee body (exec) stays inside its frame - it does not, see the two findings - '
+             'the binding of `this`, the analyser\'s resolution order, and the renaming corollary (a written argument over these contracts).',
         ref='DESIGN.md §4 C09'),
     'C10': dict(
         text='Kernel only (function half): proof that after the pre-declaration loop of SemanticAnalyser::analyse every top-level function (ghost index) is declared AND has its signature on record - parameter count and return type - '
